@@ -92,6 +92,9 @@ def mon_C03(case, obs):
                     f'task {e[1]} submitted with use_cache={e[2]}, cache pre-state says {S.use_cache0(case, e[1])}')
     if obs.get('unmarked'):
         return ('instance-unmarked', f"instances of finished tasks {obs['unmarked']} have no result_meta")
+    if obs.get('meta_start_after_run'):
+        return ('result-meta-wrong-time', f"the instances of tasks {obs['meta_start_after_run']} are marked with a start time that lies after the moment their run() "
+                                          'had already finished (serial backend; the outcome a task is marked with is when it began and how long it took)')
     return None
 
 
@@ -143,6 +146,11 @@ def mon_C05(case, obs):
 
 def mon_C10(case, obs):
     ref = S.py_ref(case)
+    if case.get('runner') in ('serial', 'fork', 'spawn'):
+        # a task that raises in run() is reported as failed with that very exception (not as a worker that died, say)
+        for t, name in sorted((obs.get('excs') or {}).items()):
+            if case['behs'][int(t)] == 'raise' and name != 'ValueError' and case['types'][int(t)] != 13:      # (type 13 fails in filter_context)
+                return ('wrong-failure-cause', f"task {t} raises ValueError in run(); under the {case['runner']} backend it was reported as failed with {name}")
     if case['cont']:
         want = [[t, ref[t]] for t in first_occ([t for t, _ in case['req']]) if ref[t] is not None]
         if obs['outcome'] != 'returned':
@@ -243,7 +251,7 @@ VOLUME = {   # tier -> (L1 cases, serial, fork, spawn)
     'thorough': (6000, 400, 120, 30),
 }
 L2_VOLUME = {'quick': 24, 'thorough': 250}     # scripted real ProcessExecutor runs (C04, C05, C10, C11)
-L2_PROPS = {'C01': [], 'C04': ['worker-limit-exceeded', 'executor-state-shared'], 'C05': ['idle-slot', 'dead-not-detected', 'executor-state-shared'], 'C11': ['dead-not-detected'], 'C10': ['started-after-failure']}
+L2_PROPS = {'C01': [], 'C04': ['worker-limit-exceeded', 'executor-state-shared'], 'C05': ['idle-slot', 'dead-not-detected', 'executor-state-shared', 'done-not-reported', 'completion-withheld'], 'C11': ['dead-not-detected'], 'C10': ['started-after-failure']}
 
 
 def nontrivial(case, obs):
@@ -278,6 +286,32 @@ def stage_falsy_results(report, dist):
                     return
     finally:
         shutil.rmtree(d, ignore_errors=True)
+
+
+def stage_displays_on(report, dist):
+    """C01, directed: the value run_tasks returns does not depend on its display options: with the task monitor and the progress
+    bars switched on, any top_n (fewer rows than active tasks, none), the same dict comes back."""
+    import contextlib
+    import io
+    from labtech.lab import Lab
+    for backend, mw, top_n in (('serial', None, 1), ('serial', None, 0), ('fork', 3, 1), ('fork', 3, 2), ('serial', None, 10)):
+        tasks = [U.VRet(x=('v', i), i=i) for i in range(4)]
+        lab = Lab(storage=None, runner_backend=backend, max_workers=mw, notebook=False)
+        outcome, res = 'returned', None
+        try:
+            with S.watchdog(40), contextlib.redirect_stdout(io.StringIO()), contextlib.redirect_stderr(io.StringIO()):
+                res = lab.run_tasks(tasks, disable_progress=False, disable_top=False, top_n=top_n)
+        except S.HarnessTimeout:
+            outcome = 'hang'
+        except BaseException as e:   # noqa
+            outcome = f'{type(e).__name__}: {e}'
+        dist['display_option_runs'] += 1
+        ok = res is not None and list(res.keys()) == tasks and all(res[t] == ('v', i) for i, t in enumerate(tasks))
+        if outcome != 'returned' or not ok:
+            report.violation('C01:not-returned' if outcome != 'returned' else 'C01:wrong-result',
+                             f'run_tasks on {backend} with the task monitor and progress bars on and top_n={top_n} (4 independent tasks): ended with {outcome}, '
+                             f'returned {None if res is None else list(res.values())!r}', dict(level='displays', backend=backend, top_n=top_n))
+            return
 
 
 def _nested_pair(report, dist, prop, lab, backend, pa, pb, want_a, want_b):
@@ -442,6 +476,10 @@ def run(prop, report, tier, seed, replay=None):
         stage_die_with_monitor(report, dist, prop)
         if replay is not None:
             return
+    if prop == 'C01' and (replay is None or replay['input'].get('level') == 'displays'):
+        stage_displays_on(report, dist)
+        if replay is not None:
+            return
     if prop == 'C11' and (replay is None or replay['input'].get('level') == 'lingering-worker'):
         stage_lingering_worker(report, dist, prop)
         if replay is not None:
@@ -463,7 +501,10 @@ def run(prop, report, tier, seed, replay=None):
         l2cases = [c for c in cases if c.get('runner') == 'l2'] if replay else []
         if replay is None:
             for _ in range(L2_VOLUME[tier]):
-                c = S.gen_case(rng, runner='l2', max_n=7, **spec['gen'])
+                gen = dict(spec['gen'])
+                if prop == 'C05' and len(l2cases) % 2 == 1:
+                    gen['p_fail'] = 0.3          # failures among the completions of one polling round (the others are handed over all the same)
+                c = S.gen_case(rng, runner='l2', max_n=7, **gen)
                 c['max_workers'] = rng.choice([1, 2, 3])
                 c['pre'] = []
                 c['top'] = (len(l2cases) % 3 == 1)          # the task monitor display is on in a third of the runs
